@@ -11,8 +11,8 @@ C={
       text="for generated `f | del(s)` / del(s1,s2) programs the reference computes V=f(doc), the identities s selects in V, and V without exactly those nodes; yq's output must equal it (value and order).",
       note="trusted: ref.Eval for f and s; selections of the root and Unspecified predicates are skipped and counted", ref="DESIGN.md 6/C03"),
  "C11": dict(tech="property-based testing (rapid) with grammar, mutation and random-bytes generators over all format pairs; validity oracle (no panic, no hang); sample re-run through the binary",
-      text="generated (expression, input, input format, output format, mode) cases must end in a result or an error: recovered panics, fatal errors of the binary and watchdog hits (20 s, confirmed at 120 s) are violations. Absence of crash sites is not established; counts and outcome classes are in the evidence.",
-      note="in-process recover() + binary sample; generator bound: sequence indices <= 65536 and repeat counts capped (resource exhaustion by an explicitly requested size is not the crash class); one open known finding (cyclic alias) is judged in a memory-limited subprocess", ref="DESIGN.md 6/C11"),
+      text="generated (expression, input, input format, output format, mode, format and printer flags) cases must end in a result or an error: recovered panics, fatal errors of the binary and watchdog hits (20 s, confirmed at 120 s) are violations. Absence of crash sites is not established; counts and outcome classes are in the evidence.",
+      note="in-process recover() + binary sample; generator bound: sequence indices <= 255 next to dynamic indexing (also in properties input keys), repeat counts capped, no fan-out next to a self-evaluating eval (resource exhaustion by an explicitly requested size is not the crash class); one open known finding (cyclic alias) is judged in a memory-limited subprocess", ref="DESIGN.md 6/C11"),
 }
 m={"version":1,"setup_cmd":"./check setup",
  "hooks":{"guard":"verif","enable":"go build -tags verif (the driver builds the yq binary and the test binaries with -tags verif)","baseline_off_cmd":"cd /repo && go test -vet=off -count=1 ./...","source_commits":[],"add_only":True},
